@@ -24,10 +24,14 @@
    * revolut: one transaction per row, but a currency sale/purchase row changes the account in
      two commodities; an assertion of the row's Balance precedes the transaction of every row
      whose date differs from the preceding row's date, which is the day's closing balance only in
-     a statement that lists the newest row first (findings/C13-revolut-balances.md). *)
+     a statement that lists the newest row first (findings/C13-revolut-balances.md).
+   * com.wise: a row yields zero (CANCELLED; NEUTRAL within one currency), one, or two transactions
+     (conversion, then payment); an incoming payment in another currency credits the target amount
+     twice -- C13_wise_incoming_conversion_refuted, findings/C13-wise-incoming-conversion.md
+     (with a patch; the model parameter repaired = true is the patched code). *)
 From Coq Require Import ZArith QArith List Bool.
 From Knut Require Import Model.Str Model.Dec Model.Date Model.Account Model.Ledger Model.Journal
-     Model.ImpCommonA Model.ImpCommonB Model.Imp.Revolut2 Model.Imp.Revolut
+     Model.ImpCommonA Model.ImpCommonB Model.Imp.Revolut2 Model.Imp.Revolut Model.Imp.Wise
      Spec.ImpSpecA Spec.ImpSpecB Proofs.DecValue Proofs.ImpProofsB.
 Import ListNotations.
 
@@ -96,3 +100,47 @@ Example C13_revolut_row_wf :
              [49;56;52;46;57;56]; []; [67;72;70;32;32;49;57;57;46;57;53]; []; [49;48;48;46;48;48]; [70;88]; [71]]%Z
     = Some ([67;72;70]%Z, mkDec 19995 (-2)).
 Proof. vm_compute. split; reflexivity. Qed.
+
+(* ---------------------------------------------------------------- com.wise *)
+(* After the header every record has 18 fields.  Each row stands for the entries ws_entries lists
+   (none for a CANCELLED row and for a NEUTRAL row within one currency -- whose fees, if any, are
+   dropped; one payment with its fees for OUT/IN within one currency; for differing currencies a
+   conversion transaction carrying the fees -- source amount to the trading account, target
+   amount from it -- followed for OUT by the payment of the target amount, for IN by the receipt
+   of the target amount [repaired: of the source amount]).  Exactly one transaction per entry,
+   in order, on the day of "Created on", consisting of the entry's bookings, changing the account
+   by exactly the entry's changes; descriptions "<ID, - and _ as blanks> / <Target name>" resp.
+   "<ID> / convert <source> <cur> to <target> <cur>"; nothing else. *)
+Theorem C13_wise_faithful : forall repaired acct feeacct trading rows,
+  acct <> tbd_account -> acct <> feeacct -> acct <> trading -> forallb ws_wf_row rows = true ->
+  let entries := flat_map (ws_entries repaired acct feeacct trading) rows in
+  exists ts,
+    import_wise repaired acct feeacct trading (CRec ws_header :: map CRec rows) = MOk (map DTxn ts) /\
+    Forall2 (fun e t => books_b acct (en_fact e) (en_legs e) None t) entries ts /\
+    map t_desc ts = map build_desc (map en_text entries).
+Proof. exact wise_faithful. Qed.
+Print Assumptions C13_wise_faithful.
+
+(* TRANSFER-1, COMPLETED, IN, 100.00 CHF arrive as 92.50 EUR: the row's effect on the account
+   ought to be +92.50 EUR (and nothing in CHF).  The code as it stands changes the account by
+   +185 EUR and -100 CHF; the patched code by +92.50 EUR and 0 CHF. *)
+Definition w_incoming : list str :=
+  [[84;82;65;78;83;70;69;82;45;49]; [67;79;77;80;76;69;84;69;68]; [73;78];
+   [50;48;50;52;45;48;49;45;48;50;32;49;48;58;48;48;58;48;48]; [50;48;50;52;45;48;49;45;48;50;32;49;48;58;48;48;58;48;48];
+   [48;46;48;48]; [67;72;70]; []; []; [82;111;99;107;121]; [49;48;48;46;48;48]; [67;72;70]; [82;111;99;107;121];
+   [57;50;46;53;48]; [69;85;82]; []; []; []]%Z.
+Definition w_acct : account := [s_Assets; [87]%Z].
+Definition w_fee : account := [s_Expenses; [70]%Z].
+Definition w_trading : account := [s_Expenses; [84]%Z].
+
+Theorem C13_wise_incoming_conversion_refuted :
+  ws_wf_row w_incoming = true /\ ws_dir_of w_incoming = WsIn /\ ws_converted w_incoming = true /\
+  ws_row_change false w_acct w_fee w_trading w_incoming (ws_tcur w_incoming) == 2 * dvalue (ws_tgt w_incoming) /\
+  ws_row_change false w_acct w_fee w_trading w_incoming (ws_scur w_incoming) == - dvalue (ws_src w_incoming) /\
+  ws_row_change true w_acct w_fee w_trading w_incoming (ws_tcur w_incoming) == dvalue (ws_tgt w_incoming) /\
+  ws_row_change true w_acct w_fee w_trading w_incoming (ws_scur w_incoming) == 0.
+Proof. repeat split; vm_compute; reflexivity. Qed.
+Print Assumptions C13_wise_incoming_conversion_refuted.
+
+Example C13_wise_row_wf : ws_wf_row w_incoming = true.
+Proof. vm_compute. reflexivity. Qed.
